@@ -248,7 +248,14 @@ func NewEnv(o EnvOpts) *Env {
 		e.Acc.SetModuleAccount(ctx, authtypes.NewEmptyModuleAccount(name, maccPerms[name]...))
 	}
 	params := o.Params
-	keeper.InitGenesis(ctx, e.K, types.GenesisState{Params: &params, TokenInfos: &types.TokenInfos{TokenInfos: o.Tokens}, ExternalStates: o.States})
+	// the genesis state is the module's to keep: hand it copies, so that nothing InitGenesis does to it reaches
+	// the objects the generator goes on using
+	var toks []*types.TokenInfo
+	for _, t := range o.Tokens {
+		c := *t
+		toks = append(toks, &c)
+	}
+	keeper.InitGenesis(ctx, e.K, types.GenesisState{Params: &params, TokenInfos: &types.TokenInfos{TokenInfos: toks}, ExternalStates: o.States})
 	op := otypes.DefaultParams()
 	okeeper.InitGenesis(ctx, e.OK, otypes.GenesisState{Params: op})
 	return e
